@@ -80,6 +80,13 @@ fn main() {
             std::process::exit(2);
         }
     };
+    // process-level history: for odd seeds the very first library call of a monitor process is a foreign one - the generic
+    // polyhedral projection with an octant triangle, as the repository's own tests use it. Nothing a later call returns may
+    // depend on it (a process-wide lazily initialised value captured from the first caller would).
+    if seed % 2 == 1 {
+        a5mon::orc::silence_panics();
+        let _ = a5mon::calls::Call::GenericInverse { x: 0.3, y: 0.3 }.exec();
+    }
     let t0 = Instant::now();
     let run = (m.run)(&ctx);
     let wall = t0.elapsed().as_secs_f64();
